@@ -51,6 +51,8 @@ func (P *Program) genVC(fn *ssa.Function, opts genOpts) (vc *VC) {
 		f := &frame{vc: vc, fn: fn, prefix: "", vals: map[ssa.Value]Term{}, ptrs: map[ssa.Value]*ptrDesc{}, tuples: map[ssa.Value][]Term{}, closures: map[ssa.Value]*ssa.MakeClosure{},
 			contract: ct, top: true, label: label, oldSt: entry}
 		f.st = entry
+		vc.topFrame = f
+		vc.registerAlways(ct, fn)
 		a0 := entry.get("$alloc", SBV64)
 		vc.assumeGlobal(mkAnd(ule(bvLit(64, 1<<34), a0), ult(a0, bvLit(64, 1<<60))))
 		for i, p := range fn.Params {
